@@ -50,8 +50,10 @@ type wproc struct {
 }
 
 func spawn() *wproc {
-	cmd := exec.Command("sh", "-c", fmt.Sprintf("ulimit -v %d; exec \"$0\" --worker", vlimitKB), os.Args[0])
-	cmd.Env = append(os.Environ(), "GOMAXPROCS=1", "GOTRACEBACK=all")
+	// The worker applies RLIMIT_AS (what `ulimit -v` sets) to itself before it reads the
+	// first job; that saves one fork+exec of a shell per restart (tens of thousands).
+	cmd := exec.Command(os.Args[0], "--worker")
+	cmd.Env = append(os.Environ(), "GOMAXPROCS=1", "GOTRACEBACK=all", fmt.Sprintf("C09_VLIMIT_KB=%d", vlimitKB))
 	in, err := cmd.StdinPipe()
 	if err != nil {
 		ev.HarnessError("pipe: %v", err)
@@ -220,6 +222,8 @@ func deathKey(d *death, kind string) (key, what string) {
 		}
 	}
 	switch {
+	case strings.Contains(s, "nil pointer dereference") && strings.Contains(s, "BuildTxListExt.func"):
+		return "block/nil-element-kills-process", "Block.BuildTxListExt(true) hashes the transactions in goroutines; a transaction that btc.NewTx decoded to a Tx holding a nil *TxIn/*TxOut makes such a goroutine panic (nil pointer dereference), which no caller can recover: the process dies"
 	case d.hung:
 		return "hang/no-progress-120s", "the decode did not return within 120 s"
 	case strings.Contains(s, "out of memory") || strings.Contains(s, "cannot allocate memory"):
@@ -434,6 +438,9 @@ func (s *state) workerLoop(bases []base, blocks []bbase, wg *sync.WaitGroup) {
 			}
 			c, kind, dohash := genCase(j, culprit, bases, blocks)
 			key, what := deathKey(d, kind)
+			if os.Getenv("C09_DEBUG") != "" {
+				fmt.Fprintf(os.Stderr, "death job=%s/%d/%s [%d,%d) done=%d culprit=%d case=%x key=%s\n", j.Kind, j.Base, j.Fam, j.Lo, j.Hi, done, culprit, c, key)
+			}
 			s.mu.Lock()
 			s.deathN++
 			s.evals++
@@ -594,12 +601,15 @@ func main() {
 	if r.Thorough() {
 		r.Budget = 17 * time.Minute
 	} else {
-		r.Budget = 100 * time.Second
+		r.Budget = 110 * time.Second
 	}
 	nvec := validateReference()
 
 	thor := r.Thorough()
-	bases := buildBases(thor)
+	var bases []base
+	for _, sp := range buildBases(thor) {
+		bases = append(bases, *sp.build(thor))
+	}
 	blocks := buildBlocks(thor)
 	s := &state{perFam: map[string]*famStat{}, classes: map[string]int{}, shapes: map[string]int{}, viol: map[string]*violAgg{},
 		deaths: map[string][]deathCase{}, samples: &ev.Samples{N: 12}}
@@ -620,7 +630,7 @@ func main() {
 		}
 	}
 	// simplest first: short strings, then per base the families in a fixed order
-	shortMax := 6
+	shortMax := 5
 	if thor {
 		shortMax = 7
 	}
